@@ -117,6 +117,11 @@ func verifC06Cases() []verifC06Case {
 		add("", ab+", { i32, [2 x "+T+"] } %s", fmt.Sprintf("%%r = extractvalue { i32, [2 x %s] } %%s, 1, 0", T), T)
 		add("", ab+", { i32, [2 x "+T+"] } %s", fmt.Sprintf("%%r = extractvalue { i32, [2 x %s] } %%s, 1", T), "[2 x "+T+"]")
 		add("", ab+", <{ i8, "+T+" }> %s", fmt.Sprintf("%%r = extractvalue <{ i8, %s }> %%s, 1", T), T)
+		// struct inside struct, the deeper index differs from the first (and selects a field of another type)
+		add("", ab+", { i1, { i64, "+T+", i8 } } %s", fmt.Sprintf("%%r = extractvalue { i1, { i64, %s, i8 } } %%s, 1, 0", T), "i64")
+		add("", ab+", { i1, { i64, "+T+", i8 } } %s", fmt.Sprintf("%%r = extractvalue { i1, { i64, %s, i8 } } %%s, 1, 2", T), "i8")
+		add("", ab+", { i1, { i64, "+T+", i8 } } %s", fmt.Sprintf("%%r = extractvalue { i1, { i64, %s, i8 } } %%s, 1, 1", T), T)
+		add("", ab+", { i1, { i64, "+T+", i8 } } %s", fmt.Sprintf("%%r = insertvalue { i1, { i64, %s, i8 } } %%s, %s %%a, 1, 1", T, T), "{ i1, { i64, "+T+", i8 } }")
 		if s.isVec {
 			add("", ab, fmt.Sprintf("%%r = extractelement %s %%a, i32 0", T), s.elem)
 			add("", ab+", "+s.elem+" %e", fmt.Sprintf("%%r = insertelement %s %%a, %s %%e, i64 0", T, s.elem), T)
